@@ -33,7 +33,7 @@ def cases(tier, seed):
         for direction in ("submit|shutdown", "shutdown|submit"):
             out.append({"name": "cos.layered/%s/%s" % (inner, direction), "kind": "layered", "inner": inner, "dir": direction,
                         "earlier": "pp", "resub": False, "cap": 30 if tier == "quick" else None})
-    nf = 12 if tier == "quick" else 96
+    nf = 12 if tier == "quick" else 2000
     for i in range(nf):
         out.append({"name": "cos.fuzz/%d" % i, "kind": "fuzz", "n": 25 if tier == "quick" else 60, "idx": i})
     return out
